@@ -27,21 +27,21 @@ var (
 
 type WalkFunc = real.WalkFunc
 
-func Base(p string) string                        { return real.Base(p) }
-func Clean(p string) string                       { return real.Clean(p) }
-func Dir(p string) string                         { return real.Dir(p) }
-func Ext(p string) string                         { return real.Ext(p) }
-func FromSlash(p string) string                   { return real.FromSlash(p) }
-func ToSlash(p string) string                     { return real.ToSlash(p) }
-func IsAbs(p string) bool                         { return real.IsAbs(p) }
-func IsLocal(p string) bool                       { return real.IsLocal(p) }
-func Join(elem ...string) string                  { return real.Join(elem...) }
-func Match(pattern, name string) (bool, error)    { return real.Match(pattern, name) }
+func Base(p string) string                          { return real.Base(p) }
+func Clean(p string) string                         { return real.Clean(p) }
+func Dir(p string) string                           { return real.Dir(p) }
+func Ext(p string) string                           { return real.Ext(p) }
+func FromSlash(p string) string                     { return real.FromSlash(p) }
+func ToSlash(p string) string                       { return real.ToSlash(p) }
+func IsAbs(p string) bool                           { return real.IsAbs(p) }
+func IsLocal(p string) bool                         { return real.IsLocal(p) }
+func Join(elem ...string) string                    { return real.Join(elem...) }
+func Match(pattern, name string) (bool, error)      { return real.Match(pattern, name) }
 func Rel(basepath, targpath string) (string, error) { return real.Rel(basepath, targpath) }
-func Split(p string) (dir, file string)           { return real.Split(p) }
-func SplitList(p string) []string                 { return real.SplitList(p) }
-func VolumeName(p string) string                  { return "" }
-func HasPrefix(p, prefix string) bool             { return strings.HasPrefix(p, prefix) }
+func Split(p string) (dir, file string)             { return real.Split(p) }
+func SplitList(p string) []string                   { return real.SplitList(p) }
+func VolumeName(p string) string                    { return "" }
+func HasPrefix(p, prefix string) bool               { return strings.HasPrefix(p, prefix) }
 
 func Abs(p string) (string, error) {
 	if IsAbs(p) {
